@@ -690,6 +690,10 @@ class LineTensor(SubspaceTensor, ABC):
         if self.dim == 2:
             return np.ones(self.shape[: self.free_indices], dtype=bool)
 
+        if other is self:
+            # tensor diagrams identify nodes by identity
+            other = other.copy()
+
         e = LeviCivitaTensor(self.dim + 1)
         d = TensorDiagram(*[(e, self)] * (self.dim - 1), *[(e, other)] * (self.dim - 1))
         return d.calculate().is_zero()
